@@ -184,8 +184,8 @@ def run(chk, facts, tier):
         chk.instance('errors-reset', fn, 'error_response -> state.error_reset()', ok, '' if ok else 'Pairing Failed does not return pairing to idle', key='error_response')
     for fn in variants(facts, 'bluetoe::details::security_connection_data_base::error_reset', chk):
         c = fn.body.calls('state')
-        ok = len(c) == 1 and c[0].args() and strip_casts(c[0].args()[0]).n == 'idle'
-        chk.instance('errors-reset', fn, 'error_reset -> state(idle)', ok, '' if ok else 'error_reset does not set idle', key='error_reset')
+        ok = len(c) == 1 and c[0].args() and strip_casts(c[0].args()[0]).n == 'idle' and not fn.guards(c[0]) and not fn.paths_avoiding([fn.entry], fn.exit, {fn.block_of(c[0])})
+        chk.instance('errors-reset', fn, 'error_reset -> state(idle), from every state', ok, '' if ok else 'error_reset does not (always) set idle: after Pairing Failed the pairing state is not idle and the next Pairing Request is refused', key='error_reset')
 
     # ---- srand only after the confirm value was verified
     for fn in variants(facts, SB + 'legacy_handle_pairing_random', chk):
